@@ -3063,7 +3063,10 @@ def optimize_blockwise_fusion(expr):
                 seen.add(next._name)
 
                 group.append(next)
-                for dep_name in dependencies[next._name]:
+                # iterate in a fixed order: the iteration order of a set of strings
+                # depends on the hash seed, and it determines the order (and
+                # therefore the name) of the fused group
+                for dep_name in sorted(dependencies[next._name]):
                     dep = expr_mapping[dep_name]
 
                     stack_names = {s._name for s in stack}
